@@ -215,7 +215,7 @@ async fn handle(mut stream: TcpStream, j: usize, beh: Option<Beh>, sh: Arc<Share
             drain_tcp(&mut stream, Duration::from_secs(10)).await;
             set(&|a, t| a.peer_end_ms = Some(t));
         }
-        Beh::Close0 | Beh::Close300 | Beh::Drop | Beh::Mute | Beh::Silent | Beh::Healthy => {
+        Beh::Close0 | Beh::Close300 | Beh::CloseHold | Beh::Drop | Beh::Mute | Beh::Silent | Beh::Healthy => {
             let mut ws = match tokio_tungstenite::accept_hdr_async(stream, echo_subprotocol).await {
                 Ok(ws) => ws,
                 Err(e) => {
@@ -236,6 +236,16 @@ async fn handle(mut stream: TcpStream, j: usize, beh: Option<Beh>, sh: Arc<Share
                     // orderly: wait for the peer's Close / EOF, then drop
                     let _ = tokio::time::timeout(Duration::from_secs(30), async { while let Some(Ok(_)) = ws.next().await {} }).await;
                     set(&|a, t| a.peer_end_ms = Some(t));
+                }
+                Beh::CloseHold => {
+                    set(&|a, t| a.act_before_ms = Some(t));
+                    let _ = ws.send(Message::Close(None)).await;
+                    set(&|a, t| a.act_after_ms = Some(t));
+                    // reads the client's answer, then neither closes the TCP connection nor says anything any more
+                    let _ = tokio::time::timeout(Duration::from_secs(30), async { while let Some(Ok(_)) = ws.next().await {} }).await;
+                    set(&|a, t| a.peer_end_ms = Some(t));
+                    tokio::time::sleep(Duration::from_secs(120)).await;
+                    drop(ws);
                 }
                 Beh::Drop => {
                     set(&|a, t| a.act_before_ms = Some(t));
